@@ -93,6 +93,8 @@ def sequential_verdicts_loop(world_spec, tickets):
             await t
 
     simloop.run_in_loop(main, contextvars.Context())
+    for c_ in run.handed:
+        c_.close()
     return run
 
 
